@@ -375,21 +375,55 @@ fn main_rounds(ctx: &Ctx) {
     ctx.assume("tokens are globally unique (round, client, index), so a foreign byte is recognisable; OS schedules are sampled, not controlled");
     let rounds = ctx.tier.pick(120usize, 6000usize);
     for (ti, &tr) in [Transport::UnixPath, Transport::Tcp].iter().enumerate() {
-        let mut server = match Server::start(standard_service(SvcCfg { up: UpMode::Line, ..Default::default() }), tr, ServerCfg { initial: 1, max: 200, idle_timeout: 0, with_stop_flag: true }) {
+        // the server is a child process (`vh serve`): a fault that takes the whole service down
+        // (abort, stack overflow, a descriptor closed twice) must be a verdict, not the death of
+        // this monitor
+        let addr = match tr {
+            Transport::Tcp => Some(format!("tcp:127.0.0.1:{}", std::net::TcpListener::bind("127.0.0.1:0").and_then(|l| l.local_addr()).map(|a| a.port()).unwrap_or(24791))),
+            _ => None,
+        };
+        if std::env::var("VH_INPROCESS_SERVER").is_ok() {
+            // sanitizer overlay: the race detector must see the server's threads
+            let mut server = match Server::start(standard_service(SvcCfg { up: UpMode::Line, ..Default::default() }), tr, ServerCfg { initial: 1, max: 200, idle_timeout: 0, with_stop_flag: true }) {
+                Ok(s) => s,
+                Err(e) => {
+                    ctx.inconclusive(json!({ "server_start": e }));
+                    continue;
+                }
+            };
+            if server.wait_ready().is_err() {
+                ctx.inconclusive(json!({"server_ready": "no"}));
+                continue;
+            }
+            let mut rng = Rng::lane(ctx.seed, 1200 + ti as u64);
+            for r in 0..rounds / 2 {
+                if ctx.violations() >= 3 {
+                    break;
+                }
+                let n = *rng.pick(&[2usize, 2, 3, 4, 6, 8, 12, 16, 24, 32, 48, 64]);
+                let nbad = rng.below(9);
+                round(ctx, &server.address, &format!("{:?}", tr), n, nbad, ctx.seed, ti * 100_000 + r);
+            }
+            if let Err(e) = server.stop() {
+                ctx.violation("c13:listen-returned-error", json!({"engine": "c13", "error": e}));
+            }
+            continue;
+        }
+        let mut server = match crate::c06::ChildServer::start_with(addr, true) {
             Ok(s) => s,
             Err(e) => {
                 ctx.inconclusive(json!({ "server_start": e }));
                 continue;
             }
         };
-        if server.wait_ready().is_err() {
-            ctx.inconclusive(json!({"server_ready": "no"}));
-            continue;
-        }
         let mut rng = Rng::lane(ctx.seed, 1200 + ti as u64);
         for r in 0..rounds / 2 {
             if ctx.violations() >= 3 {
                 // enough witnesses; do not sit through further timeouts on a broken tree
+                break;
+            }
+            if let Err(e) = server.alive() {
+                ctx.violation("c13:service-process-died", json!({"engine": "c13", "transport": format!("{:?}", tr), "round": r, "message": format!("the service process is gone after round {}: {}", r, e)}));
                 break;
             }
             let n = *rng.pick(&[2usize, 2, 3, 4, 6, 8, 12, 16, 24, 32, 48, 64]);
@@ -399,8 +433,8 @@ fn main_rounds(ctx: &Ctx) {
                 ctx.sample(json!({"transport": format!("{:?}", tr), "clients": n, "misbehaving_peers": nbad, "each_client": "random sequence of 2-16 requests, random pipelining depth and segmentation, sentinel-terminated"}));
             }
         }
-        if let Err(e) = server.stop() {
-            ctx.violation("c13:listen-returned-error", json!({"engine": "c13", "error": e}));
+        if let Err(e) = server.alive() {
+            ctx.violation("c13:service-process-died", json!({"engine": "c13", "transport": format!("{:?}", tr), "message": format!("the service process is gone at the end of the rounds: {}", e)}));
         }
     }
 }
